@@ -33,7 +33,7 @@ from pykka.messages import ProxyCall  # noqa: E402
 
 logging.disable(logging.CRITICAL)
 
-OK, DECL, OTHER, DIES, INTR = 0, 1, 2, 3, 4
+OK, DECL, OTHER, DIES, INTR, LATE = 0, 1, 2, 3, 4, 5
 LQUIT, LKBD, LEXC = 0, 1, 2
 
 # ---------------------------------------------------------------------------------------
@@ -336,6 +336,13 @@ def make_mixer_class(outcome):
             if outcome == DIES:
                 raise RuntimeError("scripted mixer dies in on_start")
 
+        @classmethod
+        def start(cls, *a, **kw):
+            ref = super().start(*a, **kw)
+            if outcome == LATE:  # the interrupt arrives once the actor is up
+                raise KeyboardInterrupt
+            return ref
+
     return ScriptedSoftwareMixer
 
 
@@ -407,6 +414,13 @@ def make_backend_class(i, outcome, with_providers=False):
             if outcome == DIES:
                 raise RuntimeError("scripted backend dies in on_start")
 
+        @classmethod
+        def start(cls, *a, **kw):
+            ref = super().start(*a, **kw)
+            if outcome == LATE:
+                raise KeyboardInterrupt
+            return ref
+
     ScriptedBackend.__name__ = f"ScriptedBackend{i}"
     return ScriptedBackend
 
@@ -426,6 +440,13 @@ def make_frontend_class(i, outcome, consume=False):
         def on_start(self):
             if outcome == DIES:
                 raise RuntimeError("scripted frontend dies in on_start")
+
+        @classmethod
+        def start(cls, *a, **kw):
+            ref = super().start(*a, **kw)
+            if outcome == LATE:
+                raise KeyboardInterrupt
+            return ref
 
         def on_event(self, event, **kwargs):
             EVENTS_SEEN.append(event)
@@ -523,8 +544,10 @@ def run_shutdown_case(case, wd):
             def quit(self):
                 self.quits += 1
                 loop_log.append("quit")
+                finally_entered.set()
 
         sig = {}
+        finally_entered = threading.Event()
 
         def unix_signal_add(_prio, _signum, func, *a):
             sig["cb"] = (func, a)
@@ -557,6 +580,8 @@ def run_shutdown_case(case, wd):
                 t_end = time.monotonic() + 10
                 while ref.is_alive() and time.monotonic() < t_end:
                     time.sleep(0.0005)
+            if case["oa"] == LATE:
+                raise KeyboardInterrupt
             return ref
 
         def ref_proxy(self):
@@ -574,6 +599,29 @@ def run_shutdown_case(case, wd):
             if case["oc"] == DIES:
                 raise RuntimeError("scripted core dies in on_start")
 
+        orig_core_setup = Core._setup
+
+        setup_done = threading.Event()
+
+        def core_setup(self):
+            try:
+                orig_core_setup(self)
+            finally:
+                setup_done.set()
+
+        cur_ask = pykka.ActorRef.ask
+
+        def ask_interrupted(self, message, *, block=True, timeout=None):
+            # oc == LATE: Ctrl-C / process.exit_process() reaches run() while it is blocked waiting
+            # for Core._setup (which by then has consumed the state file): the KeyboardInterrupt
+            # surfaces inside future.get(), i.e. before start_core returns
+            if (case["oc"] == LATE and block and isinstance(message, ProxyCall)
+                    and message.attr_path == ("_setup",)):
+                cur_ask(self, message, block=False)
+                setup_done.wait(10)
+                raise KeyboardInterrupt
+            return cur_ask(self, message, block=block, timeout=timeout)
+
         def dump(path, data):
             r = orig_dump(path, data)
             saves.append(str(path))
@@ -589,6 +637,8 @@ def run_shutdown_case(case, wd):
             p.set(pykka.ActorRef, "proxy", ref_proxy)
             p.set(Core, "__init__", core_init)
             p.set(Core, "on_start", core_on_start)
+            p.set(Core, "_setup", core_setup)
+            p.set(pykka.ActorRef, "ask", ask_interrupted)
             p.set(storage, "dump", dump)
             THREAD_COMPONENT[threading.get_ident()] = "Main"
             wd.arm(case, 12)
@@ -834,10 +884,12 @@ def main():
     with open(out_path, "w") as out:
         wd = Watchdog(out)
         for idx, case in cases:
+            t0 = time.monotonic()
             try:
                 res = run_shutdown_case(case, wd) if mode == "shutdown" else run_waitfor_case(case, wd)
             except BaseException as e:  # noqa: BLE001
                 res = {"harness_error": f"{type(e).__name__}: {e}", "tb": traceback.format_exc()[-1500:]}
+            res["elapsed_s"] = round(time.monotonic() - t0, 3)
             out.write(json.dumps({"idx": idx, "res": res}) + "\n")
             out.flush()
     os._exit(0)
